@@ -42,7 +42,66 @@ fn box2(b: &[f64; 4]) -> String {
     b.iter().map(|x| num2(*x)).collect::<Vec<_>>().join(",")
 }
 
+/// `big <n> <fan>`: a regular two-level tree with `n` leaves, `fan` per inner node; catalog 1,
+/// root 2 (MediaBox [0 0 612 792], /Count n), inner node j = object 3+j (/Rotate (j mod 4)·90),
+/// leaf i = object 3 + #inner + i.  Probed: page_count, get_page at 0, fan-1, fan, dc-1, dc.
+fn build_big(n: u32, fan: u32) -> Vec<u8> {
+    let mut w = refpdf::RefPdf::new();
+    let ninner = (n + fan - 1) / fan;
+    w.add(1, "<< /Type /Catalog /Pages 2 0 R >>");
+    let kids: Vec<String> = (0..ninner).map(|j| format!("{} 0 R", 3 + j)).collect();
+    w.add(2, format!("<< /Type /Pages /Kids [{}] /Count {} /MediaBox [0 0 612 792] >>", kids.join(" "), n));
+    for j in 0..ninner {
+        let lo = j * fan;
+        let hi = ((j + 1) * fan).min(n);
+        let kids: Vec<String> = (lo..hi).map(|i| format!("{} 0 R", 3 + ninner + i)).collect();
+        w.add(3 + j, format!("<< /Type /Pages /Parent 2 0 R /Kids [{}] /Count {} /Rotate {} >>", kids.join(" "), hi - lo, (j % 4) * 90));
+    }
+    for i in 0..n {
+        w.add(3 + ninner + i, format!("<< /Type /Page /Parent {} 0 R >>", 3 + i / fan));
+    }
+    w.finish(1)
+}
+
+fn run_big(n: u32, fan: u32) -> String {
+    let bytes = build_big(n, fan);
+    let rc = match PdfReader::new(Cursor::new(bytes.clone())) {
+        Ok(mut r) => r.page_count().map(|n| n.to_string()).unwrap_or_else(|_| "E".into()),
+        Err(_) => return "open-error".into(),
+    };
+    let doc = match PdfReader::new(Cursor::new(bytes)) {
+        Ok(r) => PdfDocument::new(r),
+        Err(_) => return "open-error".into(),
+    };
+    let dc = match doc.page_count() {
+        Ok(n) => n,
+        Err(_) => return format!("rc={} dc=E", rc),
+    };
+    let mut out = format!("rc={} dc={}", rc, dc);
+    let mut probes = vec![0u32, fan - 1, fan, dc.saturating_sub(1)];
+    probes.retain(|i| *i < dc);
+    probes.dedup();
+    for i in probes {
+        match doc.get_page(i) {
+            Ok(p) => out += &format!(" | {}:{} m={} c={} r={} z={}", i, p.obj_ref.0, box2(&p.media_box), if p.crop_box.is_some() { "some" } else { "-" }, p.rotation, if p.get_resources().is_some() { "some" } else { "none" }),
+            Err(_) => out += &format!(" | {}:E", i),
+        }
+    }
+    if dc > 0 {
+        out += &format!(" | oob={}", if doc.get_page(dc).is_err() { "E" } else { "ok" });
+    }
+    out
+}
+
 fn run(req: &str) -> String {
+    if let Some(rest) = req.strip_prefix("big ") {
+        let mut it = rest.split(' ');
+        let (Some(n), Some(fan)) = (it.next().and_then(|s| s.parse::<u32>().ok()), it.next().and_then(|s| s.parse::<u32>().ok())) else { return "bad-request".into() };
+        if fan == 0 || n > 400_000 {
+            return "bad-request".into();
+        }
+        return run_big(n, fan);
+    }
     let Some((cat, root, objs)) = parse_req(req) else { return "bad-request".into() };
     let bytes = build_pdf(cat, root, &objs);
     if std::env::var("C18_DUMP").is_ok() {
@@ -614,6 +673,14 @@ fn gen_tree(rng: &mut Rng, depth: u32, maxw: u64, budget: i64, mode: u32) -> Cas
 
 fn gen(rng: &mut Rng, tier: Tier) -> Vec<Case> {
     let mut cases = vec![];
+    // the MAX_PAGES cap: regular trees just below, at and above 100 000 leaves
+    cases.push(Case::new("big 100001 100", "big cap nt"));
+    cases.push(Case::new(format!("big {} {}", 300 + rng.below(300), 2 + rng.below(40)), "big nt"));
+    if tier == Tier::Thorough {
+        cases.push(Case::new("big 100000 250", "big cap nt"));
+        cases.push(Case::new("big 99999 1000", "big cap nt"));
+        cases.push(Case::new(format!("big {} 317", 100002 + rng.below(5000)), "big cap nt"));
+    }
     let n = if tier == Tier::Quick { 2500 } else { 40000 };
     for i in 0..n {
         let depth = match i % 8 {
